@@ -21,6 +21,7 @@ Types: Q (float), Z (int), N (loop index), B (bool), O(t), L(t), T(t..), G (geom
 from __future__ import annotations
 
 import ast
+import re
 from fractions import Fraction
 from pathlib import Path
 
@@ -136,6 +137,119 @@ def qlit(v) -> str:
     return f"({f.numerator}#{f.denominator})"
 
 
+COQ_RESERVED = {
+    "end", "at", "as", "in", "if", "then", "else", "fun", "let", "match", "with", "return", "fix", "cofix", "forall", "exists",
+    "Type", "Set", "Prop", "where", "using", "for", "struct", "IF", "mod", "bind", "sbind", "fuel", "Ok", "Err", "Some", "None",
+    "true", "false", "tt", "rev", "pymax", "pymin", "qltb", "qleb", "qeqb", "idx", "map", "nth", "length", "fst", "snd", "id",
+}
+
+
+class _Rename(ast.NodeTransformer):
+    """python identifiers that are reserved words (or prelude names) in Coq get a suffix"""
+
+    @staticmethod
+    def fix(n):
+        return n + "_py" if n in COQ_RESERVED else n
+
+    def visit_Name(self, node):
+        node.id = self.fix(node.id)
+        return node
+
+    def visit_arg(self, node):
+        node.arg = self.fix(node.arg)
+        return node
+
+    def visit_keyword(self, node):
+        if node.arg is not None:
+            node.arg = self.fix(node.arg)
+        self.generic_visit(node)
+        return node
+
+
+# ---------------------------------------------------------------- helper functions called by a translated unit
+class Ctx:
+    """Resolves calls to plain helper functions (same module, same class, or imported from the package) and
+    translates them on demand with the argument types of the call site; their definitions precede the unit's."""
+
+    def __init__(self, src_root: Path, rel: str, tree: ast.Module, cls: str | None, prefix: str, consts: dict, load_tree):
+        self.src_root, self.rel, self.tree, self.cls, self.prefix, self.consts, self.load_tree = src_root, rel, tree, cls, prefix, consts, load_tree
+        self.done: dict = {}
+        self.emitted: list[str] = []
+        self.stack: list[str] = []
+
+    def find(self, fname: str):
+        """-> (FunctionDef, module tree, rel, class or None)"""
+        parts = fname.split(".")
+        if len(parts) == 2 and parts[0] in ("cls", "self") and self.cls:
+            for n in self.tree.body:
+                if isinstance(n, ast.ClassDef) and n.name == self.cls:
+                    for m in n.body:
+                        if isinstance(m, ast.FunctionDef) and m.name == parts[1]:
+                            return m, self.tree, self.rel, self.cls
+            return None
+        if len(parts) != 1:
+            return None
+        for n in self.tree.body:
+            if isinstance(n, ast.FunctionDef) and n.name == fname:
+                return n, self.tree, self.rel, None
+        for n in self.tree.body:  # from <package module> import fname
+            if isinstance(n, ast.ImportFrom):
+                for a in n.names:
+                    if (a.asname or a.name) == fname:
+                        base = Path(self.rel).parent
+                        if n.level:
+                            for _ in range(n.level - 1):
+                                base = base.parent
+                            modp = base / Path(*(n.module or "").split(".")) if n.module else base
+                        elif (n.module or "").startswith("soundevent"):
+                            modp = Path(*n.module.split(".")[1:]) if "." in n.module else Path("")
+                        else:
+                            return None
+                        for cand in (modp.with_suffix(".py"), modp / "__init__.py"):
+                            if (self.src_root / "soundevent" / cand).exists():
+                                t = self.load_tree(str(cand))
+                                for m in t.body:
+                                    if isinstance(m, ast.FunctionDef) and m.name == a.name:
+                                        return m, t, str(cand), None
+                        return None
+        return None
+
+    def helper(self, fname: str, argtypes: tuple, kwtypes: tuple):
+        found = self.find(fname)
+        if found is None:
+            return None
+        node, tree, rel, cls = found
+        if node.decorator_list and not all(isinstance(d, ast.Name) and d.id in ("staticmethod", "classmethod") for d in node.decorator_list):
+            raise Unsupported(f"helper {fname} is decorated")
+        key = (rel, cls, node.name, argtypes, kwtypes)
+        if key in self.done:
+            return self.done[key]
+        if fname in self.stack or len(self.stack) >= 4:
+            raise Unsupported(f"helper {fname}: recursion or nesting too deep")
+        self.stack.append(fname)
+        try:
+            a = node.args
+            names = [_Rename.fix(x.arg) for x in a.args if x.arg not in ("cls", "self")]
+            ptypes = {}
+            for n, t in zip(names, argtypes):
+                ptypes[n] = t
+            for n, t in kwtypes:
+                if n not in names and n not in [_Rename.fix(x.arg) for x in a.kwonlyargs]:
+                    raise Unsupported(f"helper {fname}: unknown keyword {n}")
+                ptypes[n] = t
+            sub = Ctx(self.src_root, rel, tree, cls, self.prefix, self.consts, self.load_tree)
+            sub.done, sub.emitted, sub.stack = self.done, self.emitted, self.stack
+            coq_name = f"{self.prefix}__{node.name}" + (f"_{len([k for k in self.done if k[2] == node.name])}" if any(k[2] == node.name for k in self.done) else "")
+            fn = Fn(node, {"ptypes": ptypes, "consts": self.consts}, coq_name, sub)
+            txt = fn.translate()
+            self.emitted.append(txt)
+            res = (coq_name, [n for n, _ in fn.params], fn.ret, fn.param_defaults)
+            self.done[key] = res
+            return res
+        finally:
+            self.stack.pop()
+
+
 # ---------------------------------------------------------------- translation of one function
 class Fn:
     """iface: {
@@ -146,7 +260,13 @@ class Fn:
          'consts': {'data.MAX_FREQUENCY': ('MAX_FREQUENCY', 'Q')}
          'ret': typetext, 'generator': bool, 'drop_params': [...], 'strings': {'TimeStamp': 'TTimeStamp'} }"""
 
-    def __init__(self, node: ast.FunctionDef, iface: dict, coq_name: str):
+    def __init__(self, node: ast.FunctionDef, iface: dict, coq_name: str, ctx: "Ctx | None" = None):
+        self.ctx = ctx
+        self.params = []
+        self.param_defaults = {}
+        import copy
+
+        node = _Rename().visit(copy.deepcopy(node))
         self.node = node
         self.iface = iface
         self.coq_name = coq_name
@@ -480,6 +600,36 @@ class Fn:
                 hoist.append((name, txt[1:-1], rt))
                 return name, rt
             return txt, rt
+        if self.ctx is not None:
+            if any(k.arg is None for k in e.keywords) or any(isinstance(x, ast.Starred) for x in e.args):
+                raise Unsupported(f"call of {fname} with * or **")
+            pos = [self.expr(x, env, hoist, pure) for x in e.args]
+            pos = [(qlit(t), Q) if ty == LIT else (t, ty) for t, ty in pos]
+            kws = [(k.arg,) + self.expr(k.value, env, hoist, pure) for k in e.keywords]
+            kws = [(n, qlit(t), Q) if ty == LIT else (n, t, ty) for n, t, ty in kws]
+            h = self.ctx.helper(fname, tuple(ty for _, ty in pos), tuple((n, ty) for n, _, ty in kws))
+            if h is not None:
+                coq_name, pnames, rt, defaults = h
+                if pure:
+                    raise Unsupported("helper call in a position that cannot fail")
+                given = {}
+                for n, (t, _ty) in zip(pnames, pos):
+                    given[n] = t
+                for n, t, _ty in kws:
+                    if n in given:
+                        raise Unsupported(f"call of {fname}: {n} given twice")
+                    given[n] = t
+                vals = []
+                for n in pnames:
+                    if n in given:
+                        vals.append(given[n])
+                    elif n in defaults:
+                        vals.append(defaults[n])
+                    else:
+                        raise Unsupported(f"call of {fname}: argument {n} missing")
+                name = self.gensym("r")
+                hoist.append((name, " ".join([coq_name] + [f"{v}" for v in vals]), rt))
+                return name, rt
         raise Unsupported(f"call of {fname}")
 
     # ---- statements
@@ -568,8 +718,10 @@ class Fn:
         if isinstance(s, ast.Return):
             if mode != "fn":
                 raise Unsupported("return inside a loop body")
-            if s.value is None:
-                raise Unsupported("bare return")
+            if s.value is None or (isinstance(s.value, ast.Constant) and s.value.value is None):
+                if self.ret != U:
+                    raise Unsupported("bare return in a function that returns a value")
+                return "Ok tt"
             hoist = []
             t, ty = self.expr(s.value, env, hoist)
             if ty == LIT:
@@ -592,6 +744,12 @@ class Fn:
             if mode != "each":
                 raise Unsupported("continue")
             return "Ok tt"
+        if isinstance(s, ast.Expr) and isinstance(s.value, ast.Call):
+            hoist = []
+            t, ty = self.expr(s.value, env, hoist)
+            if not hoist or hoist[-1][0] != t:
+                raise Unsupported("expression statement that is not a call of a helper that can raise")
+            return self.wrap(hoist, cont(env), mode)
         if isinstance(s, ast.Expr) and isinstance(s.value, ast.Yield):
             if mode != "loop" or rest:
                 raise Unsupported("yield must be the last statement of the generator loop body")
@@ -819,7 +977,28 @@ class Fn:
             if n in drop:
                 continue
             used_attr = [p for p in attrs if p.split(".")[0] == n]
-            if n in declared:
+            if n in iface.get("ptypes", {}):  # a helper: the types come from the call site
+                ty = iface["ptypes"][n]
+                env[n] = (n, ty)
+                params.append((n, ty))
+                if ty == G:
+                    env[f"{n}.type"] = (n, "Gtype")
+            elif "ptypes" in iface:
+                # not given at the call site: needs a constant default
+                dflts = dict(zip([x.arg for x in a.args][len(a.args) - len(a.defaults):], a.defaults))
+                dflts.update({x.arg: d for x, d in zip(a.kwonlyargs, a.kw_defaults) if d is not None})
+                d = dflts.get(n)
+                if d is None:
+                    raise Unsupported(f"helper parameter {n} neither given nor defaulted")
+                t, ty = self.expr(d, {}, [], True)
+                if ty == LIT:
+                    t, ty = qlit(t), Q
+                if isinstance(ty, tuple) and ty[0] == "O" and ty[1] is None:
+                    raise Unsupported(f"helper parameter {n} defaults to None")
+                env[n] = (n, ty)
+                params.append((n, ty))
+                self.param_defaults[n] = t
+            elif n in declared:
                 ty = parse_type(declared[n])
                 env[n] = (n, ty)
                 params.append((n, ty))
@@ -842,7 +1021,21 @@ class Fn:
             raise Unsupported("**kwargs parameter")
         if self.generator:
             params.insert(0, ("fuel", N))
-        body = self.block(list(node.body), env, lambda e: (_ for _ in ()).throw(Unsupported("function can fall off its end")), "fn")
+        self.params = params
+        # a function without any `return <value>` returns None: unit
+        has_value_return = any(
+            isinstance(x, ast.Return) and x.value is not None and not (isinstance(x.value, ast.Constant) and x.value.value is None)
+            for x in ast.walk(node)
+        )
+        if not has_value_return and not self.generator and self.ret is None:
+            self.ret = U
+
+        def off_end(_e):
+            if self.ret == U:
+                return "Ok tt"
+            raise Unsupported("function can fall off its end")
+
+        body = self.block(list(node.body), env, off_end, "fn")
         if self.ret is None:
             raise Unsupported("no return type")
         ps = " ".join(f"({n} : {coq_type(t)})" for n, t in params)
@@ -963,10 +1156,11 @@ def generate(src_root: Path) -> tuple[str, dict]:
 
     def unit(name, rel, qual, iface, fallback=None):
         try:
-            fn = Fn(find_function(tree(rel), qual), iface, name)
+            ctx = Ctx(src_root, rel, tree(rel), qual.split(".")[0] if "." in qual else None, name, iface.get("consts", {}), tree)
+            fn = Fn(find_function(tree(rel), qual), iface, name, ctx)
             txt = fn.translate()
             report["units"][name] = "translated"
-            emit(name, txt, f"(* from soundevent/{rel} :: {qual} *)")
+            emit(name, "\n".join(ctx.emitted + [txt]), f"(* from soundevent/{rel} :: {qual} *)")
         except Unsupported as ex:
             fall_back(name, ex)
         except (SyntaxError, OSError, KeyError, IndexError, AttributeError, TypeError, ValueError, RecursionError) as ex:
@@ -1013,8 +1207,11 @@ def generate(src_root: Path) -> tuple[str, dict]:
                 raise Unsupported("no validators")
             defs = []
             for m in names:
-                fn = Fn(find_function(tree(rel), f"{cls}.{m}"), {"ret": ctype, "params": {"v": ctype}, "consts": consts}, f"{cls}_{m}")
-                defs.append(fn.translate())
+                ctx = Ctx(src_root, rel, tree(rel), cls, f"{cls}_{m}", consts, tree)
+                fn = Fn(find_function(tree(rel), f"{cls}.{m}"), {"ret": ctype, "params": {"v": ctype}, "consts": consts}, f"{cls}_{m}", ctx)
+                txt_m = fn.translate()
+                defs.extend(ctx.emitted)
+                defs.append(txt_m)
             txt = "Ok v"
             for m in reversed(names):
                 txt = f"bind ({cls}_{m} v) (fun v =>\n{txt})"
@@ -1088,7 +1285,10 @@ def generate(src_root: Path) -> tuple[str, dict]:
           "calls": {"uuid.uuid5": {"coq": "py_uuid5", "args": ["Z", "F"], "ret": "Id"},
                     "data.Clip": {"coq": "mk_Clip", "args": ["Id", "Q", "Q"], "argnames": ["uuid", "start_time", "end_time"], "ignore_kw": ["recording"], "ret": "Seg", "monadic": True}}},
          "Definition segment_clip (fuel : nat) (clip_uuid : Z) (clip_start_time clip_end_time duration : Q) (hop : option Q) (include_incomplete : bool) : option (res (list segclip)) := None.")
-    return "\n".join(out) + "\n", report
+    body = "\n".join(out) + "\n"
+    names = re.findall(r"^Definition ([A-Za-z0-9_']+)", body, flags=re.M)
+    body += "\n(* every definition above can be unfolded by `autounfold with src` (used by the Gen proofs, so that\n   they do not depend on how the source is split into helper functions) *)\nCreate HintDb src.\n#[export] Hint Unfold " + " ".join(names) + " : src.\n"
+    return body, report
 
 
 if __name__ == "__main__":
